@@ -323,7 +323,7 @@ def multiprocessing_run(
             # Save key data to disk
             np.savez(os.path.join(this_run_dir, f'mp_results.npz'), **result)
 
-        return MultiprocessingOutput(case_number=run_num, input_index=run_indicies, result=result)
+        return MultiprocessingOutput(case_number=this_run_num, input_index=run_indicies, result=result)
 
     # Perform multiprocessing study
     study_error = None
